@@ -31,6 +31,13 @@ struct Cfg {
     #[serde(default = "d_true")] auto_broker: bool,
     /// ws: after the CONNACK the broker stops reading for this long (the client's writes fill the socket buffers and block)
     #[serde(default)] ws_stall_ms: u64,
+    /// extreme values the builders accept: "max" = Duration::MAX, "halfplus" = just above half of it, "zero"
+    #[serde(default)] base_tok: String,
+    #[serde(default)] max_tok: String,
+    #[serde(default)] connect_timeout_tok: String,
+    #[serde(default)] ping_timeout_tok: String,
+    /// what connection attempts yield: "" ok | "refuse"
+    #[serde(default)] connect: String,
 }
 
 #[derive(Clone, Debug, Serialize, Deserialize)]
@@ -41,7 +48,7 @@ enum Step {
     Close {},
     /// wait until the client is connected (CONNACK delivered), bounded
     WaitConnected {},
-    Publish { #[serde(default)] qos: u8, #[serde(default)] size: usize, #[serde(default)] callback: bool },
+    Publish { #[serde(default)] qos: u8, #[serde(default)] size: usize, #[serde(default)] callback: bool, #[serde(default)] ack: String },
     Subscribe {},
     /// the broker sends `n` QoS 0 publishes to the client; plain: as one byte stream; ws: one message per entry of `messages`
     /// (sizes in packets per message), or each packet split in `split` messages
@@ -213,6 +220,11 @@ fn run_script(script: &Script, run_no: u64, tr: &mut Trace) {
     let mut cb = MqttClientOptions::builder();
     cb.with_base_reconnect_period(Duration::from_millis(20)).with_max_reconnect_period(Duration::from_millis(1000)).with_reconnect_period_jitter(ExponentialBackoffJitterType::None)
       .with_connect_timeout(Duration::from_millis(3000));
+    let tok = |t: &str| -> Option<Duration> { match t { "max" => Some(Duration::MAX), "halfplus" => Some(Duration::from_secs(u64::MAX / 2 + 1)), "zero" => Some(Duration::ZERO), _ => None } };
+    if let Some(d) = tok(&cfg.base_tok) { cb.with_base_reconnect_period(d); }
+    if let Some(d) = tok(&cfg.max_tok) { cb.with_max_reconnect_period(d); }
+    if let Some(d) = tok(&cfg.connect_timeout_tok) { cb.with_connect_timeout(d); }
+    if let Some(d) = tok(&cfg.ping_timeout_tok) { cb.with_ping_timeout(d); }
     let mut co = ConnectOptions::builder();
     co.with_client_id("verif-threaded").with_keep_alive_interval_seconds(None);
     let mut to = ThreadedOptions::builder();
@@ -225,6 +237,7 @@ fn run_script(script: &Script, run_no: u64, tr: &mut Trace) {
     } else {
         let (fc, c2) = (conns.clone(), cfg.clone());
         let factory: Arc<dyn Fn() -> gneiss_mqtt::error::GneissResult<Scripted> + Send + Sync> = Arc::new(move || {
+            if c2.connect == "refuse" { return Err(gneiss_mqtt::error::GneissError::from(std::io::Error::from(std::io::ErrorKind::ConnectionRefused))); }
             let shared = Arc::new(Mutex::new(Shared { write_chunk: c2.write_chunk, read_chunk: c2.read_chunk, block_every: c2.block_every, auto: c2.auto_broker, ..Default::default() }));
             fc.lock().unwrap().push(shared.clone());
             Ok(Scripted(shared))
@@ -305,7 +318,7 @@ fn run_script(script: &Script, run_no: u64, tr: &mut Trace) {
                 while t.elapsed() < Duration::from_secs(5) { if lifecycle.lock().unwrap().iter().any(|x| x == "Success") { break; } std::thread::sleep(Duration::from_millis(2)); }
                 tr.emit("Waited", vec![("what", json!("connected")), ("found", json!(lifecycle.lock().unwrap().iter().any(|x| x == "Success") as u8))]);
             }
-            Step::Publish { qos, size, callback } => {
+            Step::Publish { qos, size, callback, ack } => {
                 let id = next_op; next_op += 1;
                 let q = match qos { 0 => QualityOfService::AtMostOnce, 1 => QualityOfService::AtLeastOnce, _ => QualityOfService::ExactlyOnce };
                 let packet = PublishPacket::builder("t/verif".to_string(), q).with_payload(payload_for(id, *size)).build();
@@ -314,7 +327,11 @@ fn run_script(script: &Script, run_no: u64, tr: &mut Trace) {
                     let slot = Arc::new(Mutex::new(None)); let s2 = slot.clone();
                     let r = client.publish_with_callback(packet, None, Box::new(move |res| { *s2.lock().unwrap() = Some(res.is_ok()); }));
                     if r.is_err() { tr.emit("OpResult", vec![("op", json!(id)), ("ok", json!(0)), ("what", json!("synchronous error"))]); } else { pending.push((id, Pending::Cb(slot))); }
-                } else { pending.push((id, Pending::Pub(client.publish(packet, None)))); }
+                } else {
+                    let opts = match ack.as_str() { "" => None, "max" => Some(PublishOptions::builder().with_ack_timeout(Duration::MAX).build()), "zero" => Some(PublishOptions::builder().with_ack_timeout(Duration::ZERO).build()),
+                        ms => ms.parse::<u64>().ok().map(|x| PublishOptions::builder().with_ack_timeout(Duration::from_millis(x)).build()) };
+                    pending.push((id, Pending::Pub(client.publish(packet, opts))));
+                }
             }
             Step::Subscribe {} => {
                 let id = next_op; next_op += 1;
@@ -373,7 +390,9 @@ fn run_script(script: &Script, run_no: u64, tr: &mut Trace) {
     poll(tr, &mut pending, &mut logged_recv);
     for (id, _) in &pending { tr.emit("OpUnresolved", vec![("op", json!(id))]); }
     let ws_frames = broker.as_ref().map(|b| b.state.lock().unwrap().frames_in).unwrap_or(0);
-    tr.emit("End", vec![("loopAlive", json!(alive as u8)), ("closed", json!(closed as u8)), ("unresolved", json!(pending.len())), ("judge", json!(1)), ("expectAllRecv", json!((!closed) as u8)), ("wsFrames", json!(ws_frames))]);
+    tr.emit("End", vec![("loopAlive", json!(alive as u8)), ("closed", json!(closed as u8)), ("unresolved", json!(pending.len())), ("judge", json!(1)), ("expectAllRecv", json!((!closed) as u8)), ("wsFrames", json!(ws_frames)),
+        // a real socket that is closed with unread data resets the connection and the peer may lose what it had not read yet
+        ("lossless", json!((!ws) as u8))]);
     if !closed { let _ = client.close(); }
     if let Some(b) = &broker { b.state.lock().unwrap().stop = true; }
     let _ = seq_fields;
